@@ -62,8 +62,8 @@ func (e *c15Env) load(set int) {
 	e.set = set
 }
 
-func c15Check(l *explore.Local, e *c15Env, s c15Scene) *explore.Fail {
-	e.load(s.Set)
+// c15Setup writes scene s (OAM, registers) through the Mapper with the LCD off and returns the reference scene.
+func c15Setup(e *c15Env, s c15Scene) ref.Scene {
 	m := e.m
 	m.Map.Write(0xff40, 0x00)
 	sc := ref.Scene{LCDC: s.LCDC | 0x80, SCX: s.SCX, SCY: s.SCY, WX: s.WX, WY: s.WY, BGP: s.BGP, OBP0: s.OBP0, OBP1: s.OBP1, VRAM: &e.vram}
@@ -76,13 +76,15 @@ func c15Check(l *explore.Local, e *c15Env, s c15Scene) *explore.Fail {
 		sc.OAM[i] = v
 		m.Map.Write(0xfe00+uint16(i), v)
 	}
-	for a, v := range map[uint16]uint8{0xff42: s.SCY, 0xff43: s.SCX, 0xff4a: s.WY, 0xff4b: s.WX, 0xff47: s.BGP, 0xff48: s.OBP0, 0xff49: s.OBP1} {
-		m.Map.Write(a, v)
+	for _, av := range [][2]uint16{{0xff42, uint16(s.SCY)}, {0xff43, uint16(s.SCX)}, {0xff4a, uint16(s.WY)}, {0xff4b, uint16(s.WX)}, {0xff47, uint16(s.BGP)}, {0xff48, uint16(s.OBP0)}, {0xff49, uint16(s.OBP1)}} {
+		m.Map.Write(av[0], uint8(av[1]))
 	}
-	m.Map.Write(0xff40, sc.LCDC)
-	for i := 0; i < 17556+120; i++ {
-		m.P.EndMachineCycle()
-	}
+	return sc
+}
+
+// c15Compare compares the emitted frame with the reference composition.
+func c15Compare(e *c15Env, sc *ref.Scene, s c15Scene, when string) *explore.Fail {
+	m := e.m
 	want := sc.Render()
 	pix := m.P.Frame().Pix
 	stride := m.P.Frame().Stride
@@ -91,14 +93,69 @@ func c15Check(l *explore.Local, e *c15Env, s c15Scene) *explore.Fail {
 			w := ref.Shades[want[y][x]]
 			o := y*stride + x*4
 			if pix[o] != w[0] || pix[o+1] != w[1] || pix[o+2] != w[2] || pix[o+3] != w[3] {
-				return explore.Failf(c15Classify(&sc, want, x, y, pix[o]), "pixel (%d,%d) is %02x%02x%02x, DMG composition gives %02x%02x%02x (LCDC=%02x SCX=%d SCY=%d WX=%d WY=%d BGP=%02x OBP0=%02x OBP1=%02x objs=%v)",
-					x, y, pix[o], pix[o+1], pix[o+2], w[0], w[1], w[2], sc.LCDC, s.SCX, s.SCY, s.WX, s.WY, s.BGP, s.OBP0, s.OBP1, s.Objs)
+				return explore.Failf(c15Classify(sc, want, x, y, pix[o]), "%spixel (%d,%d) is %02x%02x%02x, DMG composition gives %02x%02x%02x (LCDC=%02x SCX=%d SCY=%d WX=%d WY=%d BGP=%02x OBP0=%02x OBP1=%02x objs=%v)",
+					when, x, y, pix[o], pix[o+1], pix[o+2], w[0], w[1], w[2], sc.LCDC, s.SCX, s.SCY, s.WX, s.WY, s.BGP, s.OBP0, s.OBP1, s.Objs)
 			}
 		}
 	}
+	return nil
+}
+
+func c15Check(l *explore.Local, e *c15Env, s c15Scene) *explore.Fail {
+	e.load(s.Set)
+	m := e.m
+	sc := c15Setup(e, s)
+	m.Map.Write(0xff40, sc.LCDC)
+	for i := 0; i < 17556+120; i++ {
+		m.P.EndMachineCycle()
+	}
+	if f := c15Compare(e, &sc, s, ""); f != nil {
+		return f
+	}
+	pix := m.P.Frame().Pix
 	l.Eval(1)
 	l.Trans(1)
 	l.Outcome(explore.HashBytes(pix[:160*4*8]) ^ explore.HashBytes(pix[160*4*72:160*4*80]))
+	return nil
+}
+
+// c15Seq: on a fresh emulator, scene A is displayed for OffAt machine cycles, the LCD is switched off
+// (wherever in the frame that is), scene B is set up and displayed; B's first and following frames are compared.
+type c15Seq struct {
+	A      c15Scene `json:"a"`
+	OffAt  int      `json:"off_at"`
+	B      c15Scene `json:"b"`
+	Frames int      `json:"frames"`
+}
+
+func c15SeqCheck(l *explore.Local, _ *c15Env, q c15Seq) *explore.Fail {
+	e := &c15Env{}
+	e.load(q.B.Set)
+	m := e.m
+	if q.OffAt >= 0 {
+		sa := c15Setup(e, q.A)
+		m.Map.Write(0xff40, sa.LCDC)
+		for i := 0; i < q.OffAt; i++ {
+			m.P.EndMachineCycle()
+		}
+	}
+	sc := c15Setup(e, q.B)
+	m.Map.Write(0xff40, sc.LCDC)
+	for i := 0; i < 120; i++ {
+		m.P.EndMachineCycle()
+	}
+	for fr := 1; fr <= q.Frames; fr++ {
+		for i := 0; i < 17556; i++ {
+			m.P.EndMachineCycle()
+		}
+		if f := c15Compare(e, &sc, q.B, fmt.Sprintf("frame %d after the LCD was switched on: ", fr)); f != nil {
+			return f
+		}
+		l.Trans(1)
+	}
+	l.Eval(1)
+	pix := m.P.Frame().Pix
+	l.Outcome(explore.HashBytes(pix[:160*4*8]) ^ explore.HashBytes(pix[160*4*72:160*4*80]) ^ uint64(q.OffAt))
 	return nil
 }
 
@@ -148,7 +205,7 @@ func init() {
 			pals = []uint8{0xe4, 0x1b, 0x6c}
 		}
 		base := c15Scene{LCDC: 0x13, BGP: 0xe4, OBP0: 0xe4, OBP1: 0x1b, Set: set}
-		explore.Product(c.R, "background-window", explore.PartOpt{Bound: "one frame per scene", Domain: fmt.Sprintf("map x addressing x SCX,SCY in %v x window off/WX %v x WY %v x window map x palettes %02x, 3 fixed objects", scroll, wxs, wys, pals)},
+		explore.Product(c.R, "background-window", explore.PartOpt{History: 64, Bound: "one frame per scene (the emulator instance is reused from scene to scene, LCD off/on in between)", Domain: fmt.Sprintf("map x addressing x SCX,SCY in %v x window off/WX %v x WY %v x window map x palettes %02x, 3 fixed objects", scroll, wxs, wys, pals)},
 			func(yield func(c15Scene) bool) {
 				objs := []c15Obj{{40, 20, 5, 0x00}, {60, 90, 9, 0x90}, {100, 150, 300 & 0xff, 0x60}}
 				for _, mapHi := range []uint8{0, 0x08} {
@@ -180,7 +237,7 @@ func init() {
 					}
 				}
 			}, func() *c15Env { return &c15Env{} }, c15Check)
-		explore.Product(c.R, "single-object", explore.PartOpt{Bound: "one frame per scene", Domain: "X in {0..8,84,160..168} x Y in {0..16,80,144..160} x 4 flips x 2 palettes x 2 priorities x 2 backgrounds"},
+		explore.Product(c.R, "single-object", explore.PartOpt{History: 64, Bound: "one frame per scene (the emulator instance is reused from scene to scene, LCD off/on in between)", Domain: "X in {0..8,84,160..168} x Y in {0..16,80,144..160} x 4 flips x 2 palettes x 2 priorities x 2 backgrounds"},
 			func(yield func(c15Scene) bool) {
 				var xs, ys []uint8
 				for v := 0; v <= 8; v++ {
@@ -219,7 +276,7 @@ func init() {
 					}
 				}
 			}, func() *c15Env { return &c15Env{} }, c15Check)
-		explore.Product(c.R, "object-pairs-and-rows", explore.PartOpt{Bound: "one frame per scene", Domain: "two overlapping objects dx,dy in {-7,-4,-1,0,1,4,7} x priority/palette combinations (OAM in X order); ten objects on one line"},
+		explore.Product(c.R, "object-pairs-and-rows", explore.PartOpt{History: 64, Bound: "one frame per scene (the emulator instance is reused from scene to scene, LCD off/on in between)", Domain: "two overlapping objects dx,dy in {-7,-4,-1,0,1,4,7} x priority/palette combinations (OAM in X order); ten objects on one line"},
 			func(yield func(c15Scene) bool) {
 				ds := []int{-7, -4, -1, 0, 1, 4, 7}
 				for _, dx := range ds {
@@ -257,5 +314,36 @@ func init() {
 					}
 				}
 			}, func() *c15Env { return &c15Env{} }, c15Check)
+		// scene after scene on one instance: the LCD is switched off at many points of scene A's frame
+		offs := []int{-1, 1, 19, 20, 61, 113, 114, 10*114 + 30, 72*114 + 5, 100*114 + 70, 143*114 + 113, 144 * 114, 150*114 + 7, 17555, 17556, 17556 + 114*80 + 3}
+		frames := 2
+		if th {
+			frames = 3
+			for k := 0; k < 154; k += 7 {
+				offs = append(offs, k*114+40, k*114+90)
+			}
+		}
+		objsA := []c15Obj{{30, 30, 5, 0x00}, {30, 38, 6, 0x10}, {90, 100, 9, 0x80}, {150, 160, 44, 0x60}}
+		objsB := []c15Obj{{16, 8, 50, 0x00}, {70, 70, 51, 0x90}, {70, 74, 52, 0x20}, {120, 140, 53, 0x40}}
+		scenes := []c15Scene{
+			{LCDC: 0x13, BGP: 0xe4, OBP0: 0xe4, OBP1: 0x1b, Set: set, Objs: objsA},
+			{LCDC: 0x33, BGP: 0xe4, OBP0: 0xe4, OBP1: 0x1b, WX: 7, WY: 0, Set: set, Objs: objsA},
+			{LCDC: 0x73, BGP: 0x1b, OBP0: 0x1b, OBP1: 0xe4, WX: 60, WY: 40, SCX: 5, SCY: 250, Set: set, Objs: objsB},
+			{LCDC: 0x2b, BGP: 0xe4, OBP0: 0x6c, OBP1: 0x1b, WX: 100, WY: 100, SCX: 131, SCY: 77, Set: set, Objs: objsB},
+			{LCDC: 0x11, BGP: 0x6c, OBP0: 0xe4, OBP1: 0x1b, SCX: 255, SCY: 255, Set: set},
+		}
+		explore.Product(c.R, "scene-after-scene", explore.PartOpt{Bound: fmt.Sprintf("scene A for k machine cycles, LCD off, scene B: %d frames of B compared; fresh emulator per case", frames),
+			Domain: fmt.Sprintf("every ordered pair of %d scenes (background only; window at the origin; window inside the screen with the second map; window low right; no objects) x %d switch-off points (none, inside mode 2/3/0 of line 0, mid-frame, last visible line, v-blank, frame boundary, second frame)", len(scenes), len(offs))},
+			func(yield func(c15Seq) bool) {
+				for _, a := range scenes {
+					for _, b := range scenes {
+						for _, off := range offs {
+							if !yield(c15Seq{A: a, OffAt: off, B: b, Frames: frames}) {
+								return
+							}
+						}
+					}
+				}
+			}, func() *c15Env { return nil }, c15SeqCheck)
 	})
 }
